@@ -1,6 +1,6 @@
 """C04 — per key the greatest timestamp wins, whatever order operations arrive in."""
 import vlib
-from checks import orswot_ops
+from checks import actor_traces, orswot_ops
 
 ASSUMPTIONS = [
     "pairwise distinct timestamps (as the property assumes)",
@@ -8,12 +8,17 @@ ASSUMPTIONS = [
     "C04 expectations are asserted only while every presented operation is strictly inside the forgiveness window of the "
     "newest stamp already presented from its origin and nothing was purged (the side condition of the statement)",
     "TLC explores the bounded graph exhaustively; every transition is replayed on the real OrSWotSet<N> built from /repo",
+    "(V) the repository's own eventual-consistency, sqlite and lmdb test suites are built from /repo with the guarded hooks on and run "
+    "unchanged; every mutation handled by every keyspace actor they create is validated against Trace_KeyspaceActor.tla (greatest stamp wins "
+    "per key while no request is older than its origin's safe cut-off; will_apply false exactly when the key's view does not change)",
 ]
 
 
 def run(ctx):
     results = orswot_ops.run_ops(ctx)
     cov = orswot_ops.judge(ctx, results, "C04", [("clean_edges", "no edge with the C04 side condition true")])
+    cov["own_tests_actor_traces"] = actor_traces.run_repo_tests(ctx, ["C04"])
+    cov["traces_validated_against_impl"] += cov["own_tests_actor_traces"]["actors"]
     return vlib.finish(ctx, "model_checking", cov, ASSUMPTIONS)
 
 
